@@ -80,7 +80,7 @@ package server
 //@ pure unbound(s *Stmt) bool = len(s.args) == s.paramCount && forall(i, 0, len(s.args), s.args[i] == nil)
 
 //@ property C16: (*Stmt).ResetParams, (*SessionExecutor).handleStmtExecute, (*SessionExecutor).handleStmtReset, (*SessionExecutor).handleStmtSendLongData,
-//@   (*Stmt).SetParamTypes, (*Stmt).GetParamTypes, (*SessionExecutor).bindStmtArgs
+//@   (*Stmt).SetParamTypes, (*Stmt).GetParamTypes, (*SessionExecutor).bindStmtArgs, (*SessionExecutor).handleStmtClose
 
 //@ func (*Stmt).ResetParams
 //@   requires s != nil && 0 <= s.paramCount
@@ -126,6 +126,14 @@ package server
 //@   requires se != nil && stmtWF(se, data)
 //@   ensures case unknown: len(data) >= 4 && !old(has(se.stmts, le32(data))) ==> ret0 != nil
 //@   ensures case cleared: ret0 == nil ==> old(has(se.stmts, le32(data))) && unbound(old(se.stmts[le32(data)]))
+
+// COM_STMT_CLOSE removes exactly the named statement: every other statement stays registered with the same object
+//@ func (*SessionExecutor).handleStmtClose
+//@   requires se != nil
+//@   assigns mapof(se.stmts)
+//@   ensures case closed: len(data) >= 4 ==> !has(se.stmts, le32(data))
+//@   ensures case others: forall(k uint32, (len(data) < 4 || k != le32(data)) ==> has(se.stmts, k) == old(has(se.stmts, k)) && se.stmts[k] == old(se.stmts[k]))
+//@   ensures case quiet:  ret0 == nil
 
 // long data goes to exactly one parameter of exactly one statement (frame: every other store is an obligation);
 // an unknown id or parameter is an error
@@ -336,6 +344,31 @@ package server
 //@   ensures case ledger:  ledger(se) && se.ksConns == old(se.ksConns)
 //@   ensures case status:  !(se.status & 1 > 0)
 
+// BEGIN marks the session as inside a transaction (and only that): no connection is taken, returned or re-pinned
+//@ func (*SessionExecutor).handleBegin
+//@   requires se != nil && ledger(se)
+//@   assigns se.status, se.savepoints
+//@   loop 0 invariant se.status == old(se.status)
+//@   loop 1 invariant se.status == old(se.status)
+//@   ensures case begun:  ret0 == nil ==> se.status == old(se.status) | 1 && inTx(se)
+//@   ensures case failed: ret0 != nil ==> se.status == old(se.status)
+//@   ensures case ledger: ledger(se)
+
+// SET autocommit = 1 ends the implicit transaction like COMMIT: every transaction connection is returned exactly once and the
+// transaction table emptied, keep-session connections stay pinned; SET autocommit = 0 only changes the status
+//@ func (*SessionExecutor).handleSetAutoCommit
+//@   requires se != nil && ledger(se)
+//@   ghost-update after call Recycle#0: sessOut = sessOut - 1
+//@   loop 0 invariant se.txConns == old(se.txConns) && se.ksConns == old(se.ksConns) && sessOut == old(sessOut) - iterations() && ksHeld(se)
+//@   loop 0 invariant forall(k string, has(se.txConns, k) == old(has(se.txConns, k)) && se.txConns[k] == old(se.txConns[k])) && forall(k string, has(se.txConns, k) ==> se.txConns[k] != nil && connOut[se.txConns[k]] == ite(visited(k), 0, 1))
+//@   loop 0 invariant forall(a string, forall(b string, has(se.txConns, a) && has(se.txConns, b) && se.txConns[a] == se.txConns[b] ==> a == b))
+//@   loop 1 invariant se.ksConns == old(se.ksConns) && ksHeld(se) && sessOut == len(se.ksConns)
+//@   loop 2 invariant se.ksConns == old(se.ksConns) && se.txConns == old(se.txConns) && ledger(se) && se.status == old(se.status) && sessOut == old(sessOut) && forall(c backend.PooledConnect, connOut[c] == old(connOut[c]))
+//@   ensures case on:      autocommit ==> len(se.txConns) == 0 && forall(k string, !has(se.txConns, k)) && forall(k string, old(has(se.txConns, k)) ==> connOut[old(se.txConns[k])] == 0)
+//@   ensures case onStatus: autocommit ==> se.status & 2 > 0 && !(se.status & 1 > 0)
+//@   ensures case off:     !autocommit ==> !(se.status & 2 > 0) && se.txConns == old(se.txConns) && se.ksConns == old(se.ksConns) && sessOut == old(sessOut) && forall(c backend.PooledConnect, connOut[c] == old(connOut[c]))
+//@   ensures case ledger:  ledger(se) && se.ksConns == old(se.ksConns)
+
 // ROLLBACK: as COMMIT
 //@ func (*SessionExecutor).rollback
 //@   requires se != nil && ledger(se)
@@ -503,10 +536,10 @@ package server
 //@   ensures case held:     old(inTx(se)) || se.keepSession ==> forall(c backend.PooledConnect, connOut[c] == old(connOut[c]))
 
 //@ property C18: (*SessionExecutor).isInTransaction, (*SessionExecutor).isAutoCommit, (*SessionExecutor).IsKeepSession, (*SessionExecutor).getTransactionConn,
-//@   (*SessionExecutor).getBackendNoKsConn, (*SessionExecutor).getBackendConn, (*SessionExecutor).commit, (*SessionExecutor).rollback
+//@   (*SessionExecutor).getBackendNoKsConn, (*SessionExecutor).getBackendConn, (*SessionExecutor).commit, (*SessionExecutor).rollback, (*SessionExecutor).handleBegin, (*SessionExecutor).handleSetAutoCommit
 //@ property C19: (*SessionExecutor).isInTransaction, (*SessionExecutor).isAutoCommit, (*SessionExecutor).IsKeepSession, (*SessionExecutor).GetNamespace,
 //@   (*Namespace).GetSlice, (*Namespace).GetUserProperty, (*SessionExecutor).getTransactionConn, (*SessionExecutor).getBackendKsConn, (*SessionExecutor).getBackendNoKsConn,
-//@   (*SessionExecutor).getBackendConn, (*SessionExecutor).commit, (*SessionExecutor).rollback, (*SessionExecutor).recycleTx, (*SessionExecutor).unpinKsConn, (*SessionExecutor).recycleBackendConn, (*SessionExecutor).recycleContinueConn, (*SessionExecutor).handleKsQuit,
+//@   (*SessionExecutor).getBackendConn, (*SessionExecutor).commit, (*SessionExecutor).rollback, (*SessionExecutor).recycleTx, (*SessionExecutor).handleBegin, (*SessionExecutor).handleSetAutoCommit, (*SessionExecutor).unpinKsConn, (*SessionExecutor).recycleBackendConn, (*SessionExecutor).recycleContinueConn, (*SessionExecutor).handleKsQuit,
 //@   (*SessionExecutor).recycleBackendConns, (*Session).clearKsConns, (*SessionExecutor).handleKeepSessionPing
 //@ property C23: (*SessionExecutor).getBackendKsConn, (*SessionExecutor).getBackendConn, (*Session).clearKsConns, (*Session).shouldClearKsAndCloseSession,
 //@   (*Session).execCommand, (*SessionExecutor).handleKsQuit, (*SessionExecutor).handleKeepSessionPing
